@@ -189,7 +189,7 @@ Definition subscribe_codes (e : env) (v : view) (o : sop) (ob : opobs) : list N 
      else if oo_closed0 ob then [(b + 4)%N]
      else [(if en_setschema e && is_time r then b + 7 else b + 5)%N])
     ++ (if is_sctx o && negb (N.eqb (oo_tick ob) (tick_of (v_clock v) (hd 0 (op_states o))))
-        then [(if en_setschema e then 677 else if v_window v then 675 else 673)%N] else []).
+        then [(if v_window v then 675 else if en_setschema e then 677 else 673)%N] else []).
 
 Definition new_track (e : env) (k : nat) (v : view) (o : sop) : track :=
   let r := resolve_op v o in
